@@ -978,6 +978,34 @@ fn operations(t: &mut Tape, ctx: &mut Ctx) -> R {
     Ok(())
 }
 
+/// raw bytes (fuzz entry and replay format): first byte selects the decoder
+fn raw_bytes(t: &mut Tape, ctx: &mut Ctx) -> R {
+    let ty = usize::from(t.u8()) % N_DECODERS;
+    let n = t.remaining();
+    let b = t.bytes(n);
+    ctx.eval();
+    let ok = decode_as(ty, &b)?;
+    ctx.class(&format!("raw:{}:{}", ty, if ok { "ok" } else { "err" }));
+    if b.len() >= 8 {
+        ctx.nontrivial(&(ty, &b));
+    }
+    Ok(())
+}
+/// raw text (fuzz entry and replay format)
+fn raw_text(t: &mut Tape, ctx: &mut Ctx) -> R {
+    let n = t.remaining();
+    let b = t.bytes(n);
+    let s = String::from_utf8_lossy(&b).to_string();
+    ctx.eval();
+    parse_text(&s, ctx)?;
+    // the bytes also go through the slice parsers' script path
+    script_accessors(&Script::from(b))?;
+    if s.len() > 8 {
+        ctx.nontrivial(&s);
+    }
+    Ok(())
+}
+
 /// the repository vectors and their decoded values through every accessor (replay tier)
 fn corpus(idx: u64, _seed: u64, ctx: &mut Ctx) -> R {
     let mut files = c01::corpus_tx_files();
@@ -1048,6 +1076,8 @@ pub fn property() -> Property {
             Sub { name: "text_parsers", kind: Kind::Tape { max_len: 3000, quick: 60_000, thorough: 2_000_000, f: text_parsers } },
             Sub { name: "slice_parsers", kind: Kind::Tape { max_len: 1500, quick: 60_000, thorough: 2_000_000, f: slice_parsers } },
             Sub { name: "operations", kind: Kind::Tape { max_len: 5000, quick: 6_000, thorough: 200_000, f: operations } },
+            Sub { name: "raw_bytes", kind: Kind::Tape { max_len: 300, quick: 40_000, thorough: 1_000_000, f: raw_bytes } },
+            Sub { name: "raw_text", kind: Kind::Tape { max_len: 120, quick: 40_000, thorough: 1_000_000, f: raw_text } },
         ],
         known: vec![
             Known { key: KF_BLIND_NO_MARKED, what: "Transaction::blind panics (expect) when no output is marked for blinding", repro: repro_blind_no_marked },
